@@ -97,7 +97,7 @@ def plan(seed, subbatch):
     fired["operator_recalculate"] += len(extras)
     out = [{"op": "new", "preload": pre, "calculate": True}] + ops + [{"op": "check"}]
     return {"format": 1, "property": ID, "seed": seed, "subbatch": subbatch,
-            "config": {"process_tz": env[0] if env else None, "kind": kind, "members": members, "hexital": hexcfg, "base_s": base_s,
+            "config": {"sim_now": planlib.pick_sim_now(sub_rng(seed, "sim-now"), rows), "process_tz": env[0] if env else None, "kind": kind, "members": members, "hexital": hexcfg, "base_s": base_s,
                        "utc_offset_min": cfg.choice((None, None, None, 60, 330, -210))},
             "ops": out, "fired": dict(fired)}
 
